@@ -1029,6 +1029,7 @@ func (c *Conn) handleBdat(arg string) {
 		c.dataResult = dataResult
 		status := c.bdatStatus
 		recipients := c.recipients
+		session := c.Session()
 
 		go func() {
 			defer func() {
@@ -1042,11 +1043,11 @@ func (c *Conn) handleBdat(arg string) {
 
 			var err error
 			if !c.server.LMTP {
-				err = c.Session().Data(r)
+				err = session.Data(r)
 			} else {
-				lmtpSession, ok := c.Session().(LMTPSession)
+				lmtpSession, ok := session.(LMTPSession)
 				if !ok {
-					err = c.Session().Data(r)
+					err = session.Data(r)
 					for _, rcpt := range recipients {
 						status.SetStatus(rcpt, err)
 					}
